@@ -34,12 +34,18 @@ ASSUMPTIONS = {
             "'stopped' as a justification of a refusal = a stop request has been issued, the source is closing or it has stopped; "
             "'after stop' for admission = after the source cleared its accepting flag (DESIGN 6.2 reading, see agent_rt_report.md)",
             "eventual delivery on a finite trace = the loop never completes a wait by timeout while accepted values are pending, no "
-            "admitting send is in flight and no stop has been requested"],
+            "admitting send is in flight and no stop has been requested",
+            "conflating over a collection output: a delta without effect of its own (erase of an absent key) is accepted - the send reports "
+            "true - but carries nothing to deliver and obliges nobody to wake the loop; a delivery must show the merged latest state (last "
+            "value per key) of the effective deltas accepted since the previous delivery up to some point of the admission order"],
     "C17": ["only lower bounds on wall time are asserted (wall >= T); wall readings are taken by the driver after the executor's decision",
             "the monotonic floor previous+1 is accepted as documented; a run may return one smallest step before the wall clock reaches "
             "the end when that floor reaches the end time",
             "a lost condition-variable notification that only delays a wake-up by one wait slice is not observable without an upper bound "
-            "on time; it is covered by the model (set under the mutex, then notify) only"],
+            "on time; it is covered by the model (set under the mutex, then notify) only",
+            "'a pushed value is never missed' on a finite trace = the loop never leaves a wait by time-out while a value admitted by a push "
+            "source has been waiting there since before that wait began, no admitting send is still in flight and no stop has been "
+            "requested (pushed values still queued when the end time is reached are not a miss)"],
 }
 
 
